@@ -68,6 +68,20 @@ def generate(rng, tier, seed):
                    ["init"] + [["next", 0, v] for v in hist],
                    ["threads", ["w", ["block_on", 0]], ["p"] + [["next", 0, v] for v in live] + [last]], ["fini"], ["sched"] + sched]
             cases.append({"scn": scn, "sched": sched, "items": hist + live, "en": list(en) if en != "c" else "c", "pipe": "(hot replay with history)+live"})
+    # the future is made, but polled for the first time only later: a plain Subject emits (and possibly terminates) in between -
+    # to_vec() subscribes when it is CALLED, so everything pushed after the call belongs to the result
+    for _ in range(12 if thorough else 4):
+        early = [rng.choice([1, 2, 3]) for _ in range(rng.randrange(1, 3))]
+        latei = [70 + i for i in range(rng.randrange(0, 2))]
+        en = rng.choice(["c", ("e", 5)])
+        last = ["complete", 0] if en == "c" else ["error", 0, en[1]]
+        whole = rng.random() < 0.4          # the source even terminates before the first poll
+        p_thread = ["p", ["sleep", 1]] + [["next", 0, v] for v in early] + ([] if whole else [["sleep", 10]]) + [["next", 0, v] for v in latei] + [last]
+        base = seed * 1000 + rng.randrange(1000)
+        sched = ["random", base, 20 if thorough else 8]
+        scn = ["conc", ["objects", ["subject", "subject"], ["tovec", rng.choice([["hot", 0], ["op", "map", [["add", 0]], ["hot", 0]]])]], ["init"],
+               ["threads", ["w", ["block_on_late", 0, 5]], p_thread], ["fini"], ["sched"] + sched]
+        cases.append({"scn": scn, "sched": sched, "items": early + latei, "en": list(en) if en != "c" else "c", "pipe": "(hot subject) polled late"})
     # ... and its smallest instance under many PCT schedules (the window - a push between the replay of the history and the moment
     # the awaiter goes live - is hit by about one PCT-3 schedule in a hundred)
     nr3 = 8000 if thorough else 1500
